@@ -93,11 +93,11 @@ LivePaths == {p \in Paths : Exists(p)}
 RECURSIVE EntSeq(_)
 EntSeq(S) == IF S = {} THEN <<>> ELSE LET p == CHOOSE x \in S : TRUE IN
                <<[path |-> p, dir |-> ents[p].kind = "dir", first |-> ents[p].first, size |-> ents[p].size,
-                  chain |-> Chain(p),
+                  chain |-> [i \in 1..Len(Chain(p)) |-> <<Chain(p)[i], Chain(p)[i]>>], clen |-> Len(Chain(p)),
                   bad |-> IF \E i \in 1..Len(Chain(p)) : fat[Chain(p)[i]] = FREE THEN "free"
                           ELSE IF Chain(p) = <<>> \/ fat[Chain(p)[Len(Chain(p))]] # EOC THEN "noeoc" ELSE ""]>> \o EntSeq(S \ {p})
 ViewOf == [ncl |-> NC, cb |-> CU, ents |-> EntSeq(LivePaths), rootchain |-> <<>>, rootbad |-> "",
-           used |-> Asc({c \in Clusters : fat[c] # FREE}), beyond |-> <<>>,
+           used |-> [i \in 1..Len(Asc({c \in Clusters : fat[c] # FREE})) |-> <<Asc({c \in Clusters : fat[c] # FREE})[i], Asc({c \in Clusters : fat[c] # FREE})[i]>>], beyond |-> <<>>,
            bootok |-> TRUE, fitsrange |-> TRUE, kindok |-> TRUE, backupeq |-> TRUE, fsinfook |-> TRUE, fsinfofreeok |-> TRUE, fatseq |-> TRUE]
 Sound == P_C08(ViewOf)
 
